@@ -70,15 +70,28 @@ impl Write for UdpStream {
 
 impl AsyncRead for UdpStream {
     fn poll_read(
-        self: Pin<&mut Self>,
+        mut self: Pin<&mut Self>,
         cx: &mut Context<'_>,
         buf: &mut ReadBuf<'_>,
     ) -> Poll<Result<(), std::io::Error>> {
-        match self.inner.poll_recv(cx, buf) {
-            Poll::Ready(Ok(_n)) => Poll::Ready(Ok(())),
-            Poll::Ready(Err(e)) => Poll::Ready(Err(e)),
-            Poll::Pending => Poll::Pending,
+        // lets clear out our internal buffer first
+        if self.buffer.is_empty() {
+            // Receive into a buffer that always fits a whole datagram. Receiving straight into
+            // `buf` would silently discard whatever did not fit in the space the caller happens
+            // to have left.
+            let mut rx_bytes = [0u8; crate::MAX_SIZE_PACKET];
+            let mut rx = ReadBuf::new(&mut rx_bytes);
+            match self.inner.poll_recv(cx, &mut rx) {
+                Poll::Ready(Ok(())) => {},
+                Poll::Ready(Err(e)) => return Poll::Ready(Err(e)),
+                Poll::Pending => return Poll::Pending,
+            }
+            self.buffer.extend_from_slice(rx.filled());
         }
+
+        let to_copy = buf.remaining().min(self.buffer.len());
+        buf.put_slice(&self.buffer.split_to(to_copy));
+        Poll::Ready(Ok(()))
     }
 }
 
